@@ -7,7 +7,8 @@ facts are actually assumed, for the set being iterated):
   * no element twice                                idx(D, enum(D, i)) == i
 LIBSPEC set.discard(x): the membership array with x removed.
 LIBSPEC copy.deepcopy(s) for a set of scalars: a fresh set with the same members.
-Strictly additive: only sets are affected, everything else is delegated to the core.
+SCOPE: active only while a function of property C19 is verified (ctx.prop == 'C19'); everything else is
+delegated to the core unchanged.
 """
 import z3
 
@@ -40,7 +41,7 @@ _orig_iter_view = lib.iter_view
 
 def _iter_view(ex, st, v, node=None):
     view = _orig_iter_view(ex, st, v, node)
-    if v.kind == 'set':
+    if v.kind == 'set' and ex.ctx.prop == 'C19':
         set_enum_axioms(ex, st, v)
     return view
 
@@ -51,7 +52,7 @@ _orig_set_method = lib.set_method
 
 
 def _set_method(ex, st, s, name, args, kwargs, node):
-    if name in ('discard',) and len(args) == 1:
+    if name in ('discard',) and len(args) == 1 and ex.ctx.prop == 'C19':
         r = as_ref(s)
         st.write(r, '$dom', z3.Store(st.read(r, '$dom'), ex.box(st, args[0]), z3.BoolVal(False)))
         ex.ctx.note('LIBSPEC set.discard: membership array with the element removed')
@@ -63,7 +64,7 @@ lib.set_method = _set_method
 
 
 def _deepcopy(ex, st, args, kwargs, node):
-    if len(args) == 1 and args[0].kind == 'set':
+    if len(args) == 1 and args[0].kind == 'set' and ex.ctx.prop == 'C19':
         ex.ctx.note('LIBSPEC copy.deepcopy(set of scalars): fresh set with the same members')
         return st.new_set(args[0].ty.args[0] if args[0].ty.args else VV.ANY, st.set_dom(args[0]))
     return lib.pure_call(ex, st, 'copy.deepcopy', args, kwargs, lib.PURE_LIB['copy.deepcopy'])
@@ -82,7 +83,7 @@ _orig_e_call = _symexec.Executor._e_Call
 
 def _e_Call(self, st, node):
     f = node.func
-    if (isinstance(f, _ast.Attribute) and f.attr == 'union' and len(node.args) == 1 and not node.keywords
+    if (self.ctx.prop == 'C19' and isinstance(f, _ast.Attribute) and f.attr == 'union' and len(node.args) == 1 and not node.keywords
             and isinstance(node.args[0], _ast.Starred)):
         recv = self.ev(st, f.value)
         lst = self.ev(st, node.args[0].value)
@@ -109,7 +110,7 @@ _orig_py_eq = _symexec.Executor.py_eq
 
 
 def _py_eq(self, st, l, r):
-    if l.kind == 'set' and r.kind == 'set':
+    if l.kind == 'set' and r.kind == 'set' and self.ctx.prop == 'C19':
         self.ctx.note('LIBSPEC set == set: same members (extensional)')
         return st.set_dom(l) == st.set_dom(r)
     return _orig_py_eq(self, st, l, r)
